@@ -31,19 +31,19 @@ type sevent struct {
 }
 
 type sthread struct {
-	id     int
-	q      hReq
-	rec    *recorder
-	spy    *spyStore
-	jwks   *scriptedJWKS
-	parked chan struct{}
-	done   bool
-	resp   *envoy.CheckResponse
-	err    error
-	pnc    any
-	calls  []spyCall // accumulated over the thread's life
-	idp    []idpRecord
-	log    []stepLog
+	id                 int
+	q                  hReq
+	rec                *recorder
+	spy                *spyStore
+	jwks               *scriptedJWKS
+	parked             chan struct{}
+	done               bool
+	resp               *envoy.CheckResponse
+	err                error
+	pnc                any
+	calls              []spyCall // accumulated over the thread's life
+	idp                []idpRecord
+	log                []stepLog
 	spawnStep, endStep int
 }
 
